@@ -225,15 +225,16 @@ fn run_cfg_case(kind: &str, v: u64) -> (String, String) {
                 Ok(n) => broken(format!("{} results for a ping after the announcement", n)),
             }
         }
-        "payload_len_ser" => {
+        "payload_len_ser" | "payload_len_ser_cs128" | "payload_len_ser_cs2p24" | "payload_len_ser_csmax" => {
+            let cs: u32 = match kind { "payload_len_ser_cs128" => 128, "payload_len_ser_cs2p24" => 0x100_0000, "payload_len_ser_csmax" => 0x7FFF_FFFF, _ => 65_536 };
             let mut ser = ChunkSerializer::new();
-            let _ = ser.set_max_chunk_size(65_536, RtmpTimestamp::new(0));
+            let _ = ser.set_max_chunk_size(cs, RtmpTimestamp::new(0));
             let m = MessagePayload { timestamp: RtmpTimestamp::new(0), type_id: 9, message_stream_id: 1, data: Bytes::from(vec![7u8; v as usize]) };
             match ser.serialize(&m, false, false) {
                 Err(e) => refused(format!("{:?}", e)),
                 Ok(p) => {
                     let mut de = ChunkDeserializer::new();
-                    de.set_max_chunk_size(65_536).unwrap();
+                    de.set_max_chunk_size(cs as usize).unwrap();
                     match de.get_next_message(&p.bytes) {
                         Ok(Some(g)) if g.data.len() == v as usize => ok("round trip"),
                         other => broken(format!("{:?}", other.map(|o| o.map(|p| p.data.len())).map_err(|e| format!("{:?}", e)))),
@@ -241,8 +242,12 @@ fn run_cfg_case(kind: &str, v: u64) -> (String, String) {
                 }
             }
         }
-        "payload_len_server_send" => {
-            let (mut s, _) = ServerSession::new(ServerSessionConfig::new()).unwrap();
+        "payload_len_server_send" | "payload_len_server_send_csmax" => {
+            let mut cfg = ServerSessionConfig::new();
+            if kind.ends_with("csmax") {
+                cfg.chunk_size = 0x7FFF_FFFF;
+            }
+            let (mut s, _) = ServerSession::new(cfg).unwrap();
             match s.send_video_data(1, Bytes::from(vec![1u8; v as usize]), RtmpTimestamp::new(0), false) {
                 Err(e) => refused(format!("{:?}", e)),
                 Ok(p) => if p.bytes.len() > v as usize { ok("packet produced") } else { broken("packet shorter than the payload".into()) },
@@ -290,8 +295,9 @@ pub fn run(run: &Run) {
         }
     }
     for &v in &[0u64, 16_777_215, 16_777_216] {
-        cases.push(("payload_len_ser".into(), v));
-        cases.push(("payload_len_server_send".into(), v));
+        for k in ["payload_len_ser", "payload_len_ser_cs128", "payload_len_ser_cs2p24", "payload_len_ser_csmax", "payload_len_server_send", "payload_len_server_send_csmax"] {
+            cases.push((k.to_string(), v));
+        }
     }
     if thorough {
         // both parities of the scenario (publish / play) for the session-level kinds
